@@ -165,6 +165,7 @@ def ends(sched: List[bool]) -> bool:
             try:
                 yield from gen
             except (LIB + (Exception,)) as e:
+                __import__('vf.h').h.reraise_if_harness(e)
                 crashed[name] = f"{type(e).__name__}: {e}"
 
         from vf.conode import CoTime
@@ -191,6 +192,7 @@ def ends(sched: List[bool]) -> bool:
         except CS.Deadlock as d:
             problems.append(f"never returns: {d.who}")
         except (LIB + (Exception,)) as e:
+            __import__('vf.h').h.reraise_if_harness(e)
             problems.append(f"raised {type(e).__name__}: {e}")
         reached()
         if not problems:
@@ -254,6 +256,7 @@ def life(sched: List[bool]) -> bool:
                     yield from r
                 info[tag] = "returned"
             except (LIB + (Exception,)) as e:
+                __import__('vf.h').h.reraise_if_harness(e)
                 import traceback
                 info[tag] = f"raised {type(e).__name__}: {e}"
                 if REPLAY: info[tag + "_tb"] = "".join(traceback.format_tb(e.__traceback__)[-3:])[-600:]
@@ -347,6 +350,7 @@ def life(sched: List[bool]) -> bool:
         except CS.Deadlock as d:
             problems.append(f"never returns: {d.who}")
         except (LIB + (Exception,)) as e:
+            __import__('vf.h').h.reraise_if_harness(e)
             problems.append(f"raised {type(e).__name__}: {e}")
         reached()
         a, t, sock = boot.assoc, boot.transport, boot.sock
@@ -402,6 +406,7 @@ def life(sched: List[bool]) -> bool:
             except (CS.Deadlock, CS.Prune) as e:
                 problems.append(f"restarted node did not complete CER/CEA + DWR/DWA: {e} (start(): {info.get('second')})")
             except (LIB + (Exception,)) as e:
+                __import__('vf.h').h.reraise_if_harness(e)
                 problems.append(f"restart raised {type(e).__name__}: {e}")
             if not problems and done != ["ok"]:
                 problems.append(f"restart: {done}, start(): {info.get('second')}")
